@@ -1468,7 +1468,18 @@ class World:
         raise RaiseSig("AttributeError", fv.where(e))
 
     def dict_lookup(self, base, idx, ctx, fv, e):
-        raise VCError("dict lookup not supported")
+        """obj.__dict__[<symbolic key>] for a dataclass instance: case split over the instance's fields;
+        KeyError when the key names no field"""
+        obj = base.t[1]
+        cname = obj.ty[1]
+        names = [n for (n, _a, _d, _c) in self.prog.dataclass_fields(cname)]
+        if ctx.spec:
+            raise VCError("__dict__ lookup in a spec")
+        for n in names:
+            if fv.feasible(idx.t == z3.StringVal(n)):
+                if fv.choose(idx.t == z3.StringVal(n)):
+                    return fv.load_field(obj, n, ctx.heap, e)
+        raise RaiseSig("KeyError", fv.where(e))
 
     # ------------------------------------------------------------ lemmas
     def use_lemma(self, name, args, ctx, fv):
